@@ -631,6 +631,12 @@ func runC08(c *Ctx) {
 	// NewDefaultStorage: one Parse per reader, on that reader itself — a
 	// concatenated stream glues the last line of a source without a final
 	// newline to the first line of the next one
+	if f := c.fn("hostsfile", "DefaultStorage.ByAddr"); f != nil {
+		c08Lookup(c, f, "names")
+	}
+	if f := c.fn("hostsfile", "DefaultStorage.ByName"); f != nil {
+		c08Lookup(c, f, "addrs")
+	}
 	if f := c.fn("hostsfile", "NewDefaultStorage"); f != nil {
 		c.L.Floor("C08.storage.per-reader", 1)
 		n := 0
@@ -1014,6 +1020,66 @@ func c08OrderedSet(c *Ctx, f *ssa.Function) {
 			}
 		}
 	})
+	// both halves happen together: a new key is recorded exactly when its value is appended
+	nAdd, nApp := 0, 0
+	for _, ci := range core.AllCalls(f) {
+		call, ok := ci.(*ssa.Call)
+		if !ok {
+			continue
+		}
+		if strings.HasSuffix(core.CalleeName(&call.Call), ".Add") {
+			nAdd++
+		}
+		if b, isB := call.Call.Value.(*ssa.Builtin); isB && b.Name() == "append" {
+			nApp++
+		}
+	}
+	c.check(nAdd == 1 && nApp == 1, "C08.orderedset", f, "one set.Add(key) and one append per new key", nil,
+		sprintf("found %d Add and %d append: a key that is not recorded lets the same value in again (duplicates), a value that is not appended is lost", nAdd, nApp))
+}
+
+// c08Lookup: ByAddr / ByName return the ordered values of the entry found in
+// the index (and nil when there is none).
+func c08Lookup(c *Ctx, f *ssa.Function, field string) {
+	what := f.Name() + " returns s." + field + "[key].vals when the key is present"
+	ok := false
+	for _, ret := range core.Returns(f) {
+		phi, isPhi := ret.Results[0].(*ssa.Phi)
+		if !isPhi {
+			continue
+		}
+		gotNil, gotVals := false, false
+		for i, e := range phi.Edges {
+			if core.IsNilConst(e) {
+				gotNil = true
+				continue
+			}
+			name, base, isF := core.IsLoadOfField(e)
+			if !isF || name != "vals" {
+				continue
+			}
+			ex, isEx := base.(*ssa.Extract)
+			if !isEx || ex.Index != 0 {
+				continue
+			}
+			lk, isLk := ex.Tuple.(*ssa.Lookup)
+			if !isLk {
+				continue
+			}
+			if n2, b2, isF2 := core.IsLoadOfField(lk.X); !isF2 || n2 != field || b2 != ssa.Value(f.Params[0]) {
+				continue
+			}
+			// taken under the comma-ok of that lookup
+			cond, truth, found := edgeCondition(phi.Block().Preds[i], phi.Block())
+			if found {
+				if ce, isCE := cond.(*ssa.Extract); isCE && ce.Tuple == ex.Tuple && ce.Index == 1 && truth {
+					gotVals = true
+				}
+			}
+		}
+		ok = gotNil && gotVals
+	}
+	c.check(ok, "C08.storage.index", f, what, nil, "the answer is the first-seen ordered list stored for that key, nil otherwise")
 }
 
 // guardedByCall: in runs only where the boolean call result has the truth value.
